@@ -364,3 +364,47 @@ func (e *Engine) instances(key string) []*ssa.Function {
 	}
 	return out
 }
+
+// pkgOfFn: the package a function belongs to (also for instantiations and synthetic wrappers).
+func (e *Engine) pkgOfFn(fn *ssa.Function) *ssa.Package {
+	if fn.Pkg != nil {
+		return fn.Pkg
+	}
+	if o := fn.Origin(); o != nil && o.Pkg != nil {
+		return o.Pkg
+	}
+	if recv := fn.Signature.Recv(); recv != nil {
+		t := recv.Type()
+		if p, ok := t.(*types.Pointer); ok {
+			t = p.Elem()
+		}
+		if n, ok := types.Unalias(t).(*types.Named); ok && n.Obj().Pkg() != nil {
+			return e.prog.Package(n.Obj().Pkg())
+		}
+	}
+	return nil
+}
+
+// contractPkg: the package in which an interface-method contract was written (the package of the
+// interface named in the key), falling back to the method's package.
+func (e *Engine) contractPkg(key string, fallback *types.Package) *ssa.Package {
+	if strings.HasPrefix(key, "(") {
+		if i := strings.LastIndex(key, ")."); i > 0 {
+			tname := key[1:i]
+			if j := strings.Index(tname, "["); j >= 0 {
+				tname = tname[:j]
+			}
+			if dot := strings.LastIndex(tname, "."); dot > 0 {
+				for _, p := range e.prog.AllPackages() {
+					if p.Pkg.Path() == tname[:dot] {
+						return p
+					}
+				}
+			}
+		}
+	}
+	if fallback != nil {
+		return e.prog.Package(fallback)
+	}
+	return nil
+}
